@@ -814,6 +814,76 @@ def rule_castle_wall(h: int, w: int, arrow: List[List[str]], inside: List[List[O
 
 
 # quarter triangles of a cell: N, E, S, W (apex at the cell centre); a triangle of type k blackens two of them
+def rule_firefly(h: int, w: int, problem: List[List[str]]) -> Callable[[Sequence[bool]], bool]:
+    """answer = line segments between cell centres.  A firefly cell is '<dir><turns or ?>' ('..' = empty): one line leaves every firefly on
+    the side of its dot and runs, without branching or crossing, to the body of a firefly (never into a dot); every segment belongs to one
+    such line; a numbered firefly's line bends exactly that many times; all fireflies hang together through their lines"""
+    edges = frame_edges(h - 1, w - 1)
+    step = {"^": (-1, 0), "v": (1, 0), "<": (0, -1), ">": (0, 1)}
+    flies = {(y, x): problem[y][x] for y in range(h) for x in range(w) if problem[y][x][0] != "."}
+
+    def ok(pat: Sequence[bool]) -> bool:
+        adj: Dict[Cell, List[Cell]] = {}
+        for (a, b), on in zip(edges, pat):
+            if on:
+                adj.setdefault(a, []).append(b)
+                adj.setdefault(b, []).append(a)
+        for c, nb in adj.items():
+            if c not in flies and len(nb) != 2:
+                return False
+        used = set()
+        link: Dict[Cell, Cell] = {}
+        for c, clue in flies.items():
+            d = step[clue[0]]
+            nxt = (c[0] + d[0], c[1] + d[1])
+            if nxt not in adj.get(c, []):
+                return False
+            prev, cur, turns, heading = c, nxt, 0, d
+            used.add(frozenset((prev, cur)))
+            while cur not in flies:
+                out = [q for q in adj[cur] if q != prev]
+                if len(out) != 1:
+                    return False
+                nh = (out[0][0] - cur[0], out[0][1] - cur[1])
+                if nh != heading:
+                    turns += 1
+                heading = nh
+                prev, cur = cur, out[0]
+                e = frozenset((prev, cur))
+                if e in used:
+                    return False
+                used.add(e)
+            # arrived at the firefly `cur` through the segment (prev, cur): not through its dot
+            dd = step[flies[cur][0]]
+            if (cur[0] + dd[0], cur[1] + dd[1]) == prev:
+                return False
+            if clue[1] != "?" and turns != int(clue[1:]):
+                return False
+            link[c] = cur
+        if len(used) != sum(1 for on in pat if on):
+            return False
+        # every segment at a firefly is its own dot segment or the end of a line (covered by `used`); connectedness of the fireflies
+        if flies:
+            und: Dict[Cell, Set[Cell]] = {c: set() for c in flies}
+            for a, b in link.items():
+                und[a].add(b)
+                und[b].add(a)
+            start = next(iter(flies))
+            seen = {start}
+            st = [start]
+            while st:
+                c = st.pop()
+                for q in und[c]:
+                    if q not in seen:
+                        seen.add(q)
+                        st.append(q)
+            if len(seen) != len(flies):
+                return False
+        return True
+
+    return ok
+
+
 def rule_simpleloop(h: int, w: int, blocked: List[List[int]], pivot: Cell) -> Callable[[Sequence[bool]], bool]:
     """one loop through exactly the cells that are not blocked (no line at all when every cell is blocked).  The instance is
     well-formed when the pivot cell's entry agrees with the parity the solver derives for it (a loop on a grid visits an even number
@@ -1353,6 +1423,22 @@ def instances(tier: str) -> List[Tuple[str, tuple, dict, Callable[..., Callable[
           ("shakashaka", (3, 3, [[0, None, None], [None, None, None], [None, None, None]]), {"__sound_only__": True}, rule_shakashaka)]
     if deep:
         I += [("shakashaka", (2, 3, [[None, None, None], [None, None, None]]), {}, rule_shakashaka), ("shakashaka", (3, 2, [[None, None], [2, None], [None, None]]), {}, rule_shakashaka)]
+    # firefly (answer: segments between cell centres)
+    I += [("firefly", (1, 2, [[">0", "<0"]]), {}, rule_firefly),      # each line would run into the other's dot: no solution
+          ("firefly", (2, 2, [[">1", ".."], ["..", "^?"]]), {}, rule_firefly),
+          ("firefly", (2, 3, [[">0", "..", "v?"], ["..", "..", "<?"]]), {}, rule_firefly),
+          ("firefly", (2, 3, [[">0", "v?", ".."], ["..", "..", ".."]]), {}, rule_firefly),
+          ("firefly", (2, 3, [["v1", "..", ".."], ["..", ">?", ".."]]), {}, rule_firefly),
+          ("firefly", (2, 3, [[">?", "v?", "<?"], ["..", "..", ".."]]), {}, rule_firefly),
+          ("firefly", (2, 3, [["v1", "..", ".."], ["..", "..", "^1"]]), {}, rule_firefly),
+          ("firefly", (3, 2, [["..", ".."], ["^?", ".."], ["..", "<?"]]), {}, rule_firefly),
+          ("firefly", (3, 2, [["v?", ".."], [">?", ".."], ["..", ".."]]), {}, rule_firefly),
+          ("firefly", (2, 4, [["..", ">?", "..", ".."], ["..", "..", "<?", ".."]]), {}, rule_firefly),
+          ("firefly", (2, 4, [["..", "<2", "..", ".."], ["..", "..", ">?", ".."]]), {}, rule_firefly),
+          ("firefly", (3, 3, [["..", ">1", ".."], ["..", "..", "<?"], ["..", "..", ".."]]), {}, rule_firefly),
+          ("firefly", (3, 3, [["..", "<?", ".."], ["..", "..", "^?"], ["..", "..", "^?"]]), {}, rule_firefly),
+          ("firefly", (3, 3, [[">0", "..", "v0"], ["..", "..", ".."], ["^0", "..", "<0"]]), {}, rule_firefly),
+          ("firefly", (3, 3, [["..", "..", ".."], ["^?", "..", "v?"], ["..", "..", ".."]]), {}, rule_firefly)]
     # simpleloop: only instances whose pivot entry agrees with the parity the solver derives for the pivot cell
     I += [("simpleloop", (2, 2, [[0, 0], [0, 0]], (0, 0)), {}, rule_simpleloop),
           ("simpleloop", (2, 3, [[0, 0, 0], [0, 0, 0]], (1, 2)), {}, rule_simpleloop),
